@@ -23,6 +23,7 @@ function permutations(arr) {
 /** kind: 'std' (every file may carry an inline module, plus k external scripts), 'inline-one' (no external
  *  scripts; exactly one file has an inline <wxs>: whether the script runtime is emitted must not depend on
  *  where that file sits in the insertion order), 'no-scripts'. */
+const LATE_MODULE = '<wxs module="zq9">exports.z = 1</wxs>'
 function genGroup(rng, k, kind = 'std') {
   const files = []
   const scripts = []
@@ -40,6 +41,9 @@ function genGroup(rng, k, kind = 'std') {
     src += `<c generic:g1="x" generic:g2="y" generic:g3="z"><d slot:item slot:index slot:extra slot:aa slot:bb slot:cc="k">{{item}}{{index}}{{extra}}{{aa}}{{bb}}{{k}}</d><e slot:zz slot:aa>{{zz}}{{aa}}</e></c>`
     src += `<template name="n1"><i1/></template><template name="n2"><i2/></template><template name="n3"><i3/></template><template name="n0"><i0/></template><template is="n2"/>`
     if (kind === 'std') src += `<wxs module="w${i}" src="/s/${i}"/><wxs module="v${i}" src="/s/${(i + 1) % k}"/>{{w${i}.v}}{{v${i}.v}}`
+    // (the last file ends with an inline module no expression refers to: it can also be supplied through
+    //  set_inline_script_content after the file was added without it)
+    if (i === k - 1 && kind !== 'no-scripts') src += LATE_MODULE
     if (i > 0) src = `<import src="/${PATHS[i - 1]}"/>` + src
     if (i > 1) src = `<import src="/${PATHS[i - 2]}"/>` + src
     files.push([path, src])
@@ -79,7 +83,33 @@ export async function run(ctx) {
         // group holds scripts only" (files.length)
         const split = (oi + p) % 3 === 0 ? (oi + p + ctx.shard) % (files.length + 1) : undefined
         const script_split = split === undefined ? undefined : split === files.length ? 0 : (oi % (scripts.length + 1))
-        cases.push({ id: cases.length, g, files, scripts, split, script_split, want, how: { process: p, order, split, script_split } })
+        // histories that end in the same set of files: an older version of a file / script was added first (with or
+        // without an inline module), or the trailing inline module arrives through set_inline_script_content
+        let history
+        let filesH = files
+        let scriptsH = scripts
+        let set_inline
+        const hk = (oi + p + ctx.shard) % 5
+        if (hk === 1) {
+          const j = (oi + p) % files.length
+          const older = /<wxs module="[^"]*">/.test(files[j][1]) ? '<v a="{{a}}"/>' : '<wxs module="old">exports.o = 1</wxs><v a="{{old.o}}"/>'
+          const at = (oi * 7 + p) % (j + 1)
+          filesH = [...files.slice(0, at), [files[j][0], older], ...files.slice(at)]
+          history = `an older version of ${files[j][0]} was added first (position ${at})`
+        } else if (hk === 2 && scripts.length) {
+          scriptsH = [[scripts[0][0], 'exports.v = "older"'], ...scripts]
+          history = `an older version of script ${scripts[0][0]} was added first`
+        } else if (hk === 3 && split === undefined) {
+          const j = files.findIndex((f) => f[1].endsWith(LATE_MODULE))
+          if (j >= 0) {
+            // (the module exists already, with other content: adding a *new* module this way shifts the scope indices the
+            //  expressions were resolved to at parse time - a hot-update API outside this property, see DESIGN.md)
+            filesH = files.map((f, i) => (i === j ? [f[0], f[1].slice(0, -LATE_MODULE.length) + LATE_MODULE.replace('= 1', '= "older"')] : f))
+            set_inline = [[files[j][0], 'zq9', 'exports.z = 1']]
+            history = `the content of the trailing inline module of ${files[j][0]} was replaced through set_inline_script_content`
+          }
+        }
+        cases.push({ id: cases.length, g, files: filesH, scripts: scriptsH, split: history && hk === 1 ? undefined : split, script_split: history && hk === 1 ? undefined : script_split, want, ...(set_inline ? { set_inline } : {}), how: { process: p, order, split, script_split, history } })
       })
     })
     const res = gevBatch('tmpl', cases.map(({ g, how, ...c }) => c))
@@ -90,7 +120,7 @@ export async function run(ctx) {
       for (const api of APIS) see(c.g, api, r[api], c.how)
       for (const [path, f] of Object.entries(r.files || {})) see(c.g, 'gen:' + path, f.gen, c.how)
       report.shape(c.g + '|' + c.how.order.join(',') + '|' + (c.how.split ?? '-') + '|p' + c.how.process)
-      report.cell('observations', c.how.split !== undefined ? 'import_group' : 'direct', 'n')
+      report.cell('observations', c.how.history ? 'history' : c.how.split !== undefined ? 'import_group' : 'direct', 'n')
     }
   }
   groups.forEach((grp, g) => {
